@@ -76,13 +76,18 @@ func (f *TF) skolemize(t *Term, pos bool, qm map[*Term]bool, skolems *[]*Term) *
 
 type idxPattern struct {
 	base *Term // nil: the bound variable itself is the index
+	arr  *Sort // sort of the indexed array
 }
 
 // collect index patterns of bound var b in body, and ground index terms.
 func collectPatterns(body *Term, b *Term) []idxPattern {
 	var out []idxPattern
-	seenBase := map[*Term]bool{}
-	self := false
+	type bk struct {
+		b *Term
+		s *Sort
+	}
+	seenBase := map[bk]bool{}
+	selfS := map[*Sort]bool{}
 	seen := map[*Term]bool{}
 	var rec func(t *Term)
 	rec = func(t *Term) {
@@ -92,18 +97,22 @@ func collectPatterns(body *Term, b *Term) []idxPattern {
 		seen[t] = true
 		if (t.Op == "select" || t.Op == "store") && len(t.Args) >= 2 {
 			ix := t.Args[1]
+			as := t.Args[0].S
 			if ix == b {
-				self = true
+				if !selfS[as] {
+					selfS[as] = true
+					out = append(out, idxPattern{arr: as})
+				}
 			} else if ix.Op == "bvadd" && len(ix.Args) == 2 {
 				if ix.Args[1] == b && !containsVar(ix.Args[0], b) {
-					if !seenBase[ix.Args[0]] {
-						seenBase[ix.Args[0]] = true
-						out = append(out, idxPattern{base: ix.Args[0]})
+					if !seenBase[bk{ix.Args[0], as}] {
+						seenBase[bk{ix.Args[0], as}] = true
+						out = append(out, idxPattern{base: ix.Args[0], arr: as})
 					}
 				} else if ix.Args[0] == b && !containsVar(ix.Args[1], b) {
-					if !seenBase[ix.Args[1]] {
-						seenBase[ix.Args[1]] = true
-						out = append(out, idxPattern{base: ix.Args[1]})
+					if !seenBase[bk{ix.Args[1], as}] {
+						seenBase[bk{ix.Args[1], as}] = true
+						out = append(out, idxPattern{base: ix.Args[1], arr: as})
 					}
 				} else if ix.Args[0].Op == "bvadd" && len(ix.Args[0].Args) == 2 && ix.Args[0].Args[1] == b && ix.Args[1].Op == "bv" {
 					// (base + i) + c
@@ -117,9 +126,6 @@ func collectPatterns(body *Term, b *Term) []idxPattern {
 		}
 	}
 	rec(body)
-	if self || len(out) == 0 {
-		out = append(out, idxPattern{})
-	}
 	return out
 }
 
@@ -161,11 +167,16 @@ func containsBound(t *Term, memo map[*Term]bool) bool {
 	return r
 }
 
-// groundIndexTerms: ground terms used as select/store indices, by sort.
+// groundIndexTerms: ground terms used as select/store indices, by the sort of the indexed array (and, under the nil
+// key... by index sort for patterns without an array).
 func groundIndexTerms(asserts []*Term) map[*Sort][]*Term {
 	out := map[*Sort][]*Term{}
 	seen := map[*Term]bool{}
-	have := map[*Term]bool{}
+	type hk struct {
+		t *Term
+		s *Sort
+	}
+	have := map[hk]bool{}
 	bm := map[*Term]bool{}
 	var rec func(t *Term)
 	rec = func(t *Term) {
@@ -175,9 +186,16 @@ func groundIndexTerms(asserts []*Term) map[*Sort][]*Term {
 		seen[t] = true
 		if (t.Op == "select" || t.Op == "store") && len(t.Args) >= 2 {
 			ix := t.Args[1]
-			if !containsBound(ix, bm) && !have[ix] {
-				have[ix] = true
-				out[ix.S] = append(out[ix.S], ix)
+			if !containsBound(ix, bm) {
+				as := t.Args[0].S
+				if !have[hk{ix, as}] {
+					have[hk{ix, as}] = true
+					out[as] = append(out[as], ix)
+				}
+				if !have[hk{ix, ix.S}] {
+					have[hk{ix, ix.S}] = true
+					out[ix.S] = append(out[ix.S], ix)
+				}
 			}
 		}
 		for _, a := range t.Args {
@@ -190,7 +208,7 @@ func groundIndexTerms(asserts []*Term) map[*Sort][]*Term {
 	return out
 }
 
-const maxInst = 48
+const maxInst = 32
 
 // instantiate replaces positive universals by finite conjunctions of instances.
 func (f *TF) instantiate(t *Term, pos bool, qm map[*Term]bool, ground map[*Sort][]*Term, skolems []*Term, left *bool) *Term {
@@ -236,7 +254,14 @@ func (f *TF) instantiate(t *Term, pos bool, qm map[*Term]bool, ground map[*Sort]
 			add(sk)
 		}
 		for _, p := range pats {
-			for _, g := range ground[b.S] {
+			key := p.arr
+			if key == nil {
+				key = b.S
+			}
+			for _, g := range ground[key] {
+				if g.S != b.S {
+					continue
+				}
 				if p.base == nil {
 					add(g)
 				} else if g.S.K == KBV {
@@ -307,4 +332,41 @@ func (f *TF) groundQuery(asserts []*Term) (out []*Term, instantiated bool, remai
 		remaining = left
 	}
 	return cur, true, remaining
+}
+
+// splitConj returns terms whose conjunction is equivalent to t (used to localise a failing clause).
+func (f *TF) splitConj(t *Term) []*Term {
+	switch t.Op {
+	case "and":
+		var out []*Term
+		for _, a := range t.Args {
+			out = append(out, f.splitConj(a)...)
+		}
+		return out
+	case "or":
+		// distribute over one conjunctive disjunct
+		for i, a := range t.Args {
+			parts := f.splitConj(a)
+			if len(parts) > 1 {
+				var rest []*Term
+				rest = append(rest, t.Args[:i]...)
+				rest = append(rest, t.Args[i+1:]...)
+				var out []*Term
+				for _, p := range parts {
+					out = append(out, f.splitConj(f.Or(append(append([]*Term{}, rest...), p)...))...)
+				}
+				return out
+			}
+		}
+	case "forall":
+		parts := f.splitConj(t.Args[0])
+		if len(parts) > 1 {
+			var out []*Term
+			for _, p := range parts {
+				out = append(out, f.Forall(t.Bound, p))
+			}
+			return out
+		}
+	}
+	return []*Term{t}
 }
